@@ -86,7 +86,7 @@ def run_group(gname, tier, seed):
     # obligations are re-checked without it, so a failed hint is never itself a violation
     dropped = set()
     for _ in range(3):
-        hf = set((f["clause_unit"], f["clause"]) for f in am["failures"] if f.get("clause_kind") == "at" and "let ghost" not in f.get("rendered", "")) - dropped
+        hf = set((f["clause_unit"], f["clause"]) for f in am["failures"] if f.get("clause_kind") == "at" and ("let ghost" not in f.get("rendered", "") or f.get("frontend_in_hint"))) - dropped
         if not hf:
             break
         dropped |= hf
